@@ -1540,6 +1540,9 @@ class PCE500Emulator:
             "irq_counts": dict(self.irq_counts),
             "last_irq": dict(self.last_irq),
             "irq_bit_watch": self.irq_bit_watch,
+            # The step loop consults the halted flag: without it a machine restored
+            # while halted or powered off keeps running.
+            "halted": bool(getattr(self.cpu.state, "halted", False)),
         }
 
         kb_metrics = {
@@ -1758,6 +1761,8 @@ class PCE500Emulator:
         irq_watch = interrupts.get("irq_bit_watch")
         if isinstance(irq_watch, dict):
             self.irq_bit_watch = irq_watch
+        if "halted" in interrupts:
+            self.cpu.state.halted = bool(interrupts["halted"])
 
         kb_metrics = metadata.get("kb_metrics", {})
         self._kb_irq_count = int(kb_metrics.get("irq_count", 0))
